@@ -48,6 +48,7 @@
 #include <opm/input/eclipse/Schedule/MSW/WellSegments.hpp>
 #include <opm/input/eclipse/Schedule/MSW/Segment.hpp>
 #include <opm/input/eclipse/Schedule/Well/Well.hpp>
+#include <opm/input/eclipse/Schedule/Well/WellEconProductionLimits.hpp>
 #include <opm/input/eclipse/Schedule/Well/WellConnections.hpp>
 #include <opm/input/eclipse/Schedule/Well/Connection.hpp>
 #include <opm/input/eclipse/Schedule/Well/WellTestState.hpp>
@@ -539,6 +540,23 @@ static void cmpWell(const Well& a, const Well& b, const SchedCmpOpts& opt, Diff&
         // (for a multi-segment well the depth is a matter of which value is taken, not of units: one key for all unit systems)
         if (a.isMultiSegment()) d.real("conn.depth.msw", x.depth(), y.depth(), false); else d.real("conn.depth", x.depth(), y.depth());
         d.real("conn.skinFactor", x.skinFactor(), y.skinFactor());
+    }
+    // economic limits (WECON): the items the file carries (SWEL/IWEL slots read by RstWell)
+    {
+        const auto& ea = a.getEconLimits();
+        const auto& eb = b.getEconLimits();
+        if (ea.onAnyEffectiveLimit()) d.feat["well:WECON limit"]++;
+        d.real("well.econ.minOilRate", ea.minOilRate(), eb.minOilRate());
+        d.real("well.econ.minGasRate", ea.minGasRate(), eb.minGasRate());
+        d.real("well.econ.maxWaterCut", ea.maxWaterCut(), eb.maxWaterCut(), false);
+        d.real("well.econ.maxGasOilRatio", ea.maxGasOilRatio(), eb.maxGasOilRatio());
+        d.real("well.econ.maxWaterGasRatio", ea.maxWaterGasRatio(), eb.maxWaterGasRatio());
+        d.real("well.econ.minLiquidRate", ea.minLiquidRate(), eb.minLiquidRate());
+        d.real("well.econ.secondaryMaxWaterCut", ea.maxSecondaryMaxWaterCut(), eb.maxSecondaryMaxWaterCut(), false);
+        d.enm("well.econ.workover", ea.workover(), eb.workover());
+        d.enm("well.econ.workoverSecondary", ea.workoverSecondary(), eb.workoverSecondary());
+        d.exact("well.econ.endRun", ea.endRun(), eb.endRun());
+        d.enm("well.econ.quantityLimit", ea.quantityLimit(), eb.quantityLimit());
     }
     if (a.isMultiSegment() && b.isMultiSegment()) {
         const auto& sa = a.getSegments();
